@@ -1,8 +1,51 @@
-(* C02 -- property theorems only: each is closed by [exact] of a lemma proved elsewhere. *)
-From Coq Require Import List NArith.
-From Muscle Require Import Msg.MsgDefs Msg.MsgInstr Msg.MsgInstrProofs.
+(* C02 -- property theorems only: each is closed by [exact] of a lemma proved elsewhere.
+
+   [unflatten_i bs fixed] is the instrumented model of Message::UnflattenFromBytes(bs, |bs|) on the repaired code
+   (Msg/MsgInstr.v); it returns the parse result, the final reader and the log of raw buffer accesses, allocation
+   requests, nesting depth and undefined bool loads.  [fits bs] : the buffer is shorter than 2^31 bytes (the uint32
+   API cannot describe 2^32-1 or more, and SeekRelative() takes its uint32 argument as an int32). *)
+From Coq Require Import List NArith Strings.Byte.
+From Muscle Require Import Gen.Consts Msg.MsgDefs Msg.MsgInstr Msg.MsgInstrProofs.
+Import ListNotations.
 Local Open Scope N_scope.
 
-Theorem C02_stage1_placeholder : forall (l : list N), 0 <= len l.
-Proof. exact (@len_nonneg N). Qed.
-Print Assumptions C02_stage1_placeholder.
+(* every raw access of the parser to the received bytes lies inside the buffer, for every byte string *)
+Theorem C02_parse_in_bounds : forall bs, fits bs ->
+  Forall (in_bounds (len bs)) (accesses (unflatten_i bs fixed)).
+Proof. exact parse_in_bounds_proof. Qed.
+Print Assumptions C02_parse_in_bounds.
+
+(* termination: fuel |bs|+1 is never exhausted (every loop turn consumes input, every nesting level costs input) *)
+Theorem C02_parse_fuel : forall bs, fits bs -> result_of (unflatten_i bs fixed) <> Fuel.
+Proof. exact parse_fuel_proof. Qed.
+Print Assumptions C02_parse_fuel.
+
+(* no deliberate abort (MCRASH) is reachable and no byte other than 0/1 is loaded into a bool *)
+Theorem C02_parse_no_abort : forall bs, fits bs ->
+  result_of (unflatten_i bs fixed) <> Crash /\ ub_events (unflatten_i bs fixed) = 0.
+Proof. exact parse_no_abort_proof. Qed.
+Print Assumptions C02_parse_no_abort.
+
+(* recursion depth is linear in the input, never more: 28 bytes of input per nesting level (the stack itself is runtime: F5) *)
+Theorem C02_parse_depth : forall bs, fits bs -> 28 * depth_reached (unflatten_i bs fixed) <= len bs.
+Proof. exact parse_depth_proof. Qed.
+Print Assumptions C02_parse_depth.
+
+(* the reader never ends beyond the buffer *)
+Theorem C02_parse_consumed : forall bs, fits bs -> consumed (unflatten_i bs fixed) <= len bs.
+Proof. exact parse_consumed_proof. Qed.
+Print Assumptions C02_parse_consumed.
+
+(* non-vacuity: the premise holds for real encodings, and the model parses them: an empty Message with what-code 7,
+   and a Message holding one int32 field "i" = 5 *)
+Definition ex_empty : bytes := [x30;x30;x4d;x50; x07;x00;x00;x00; x00;x00;x00;x00].
+Definition ex_int32 : bytes := [x30;x30;x4d;x50; x07;x00;x00;x00; x01;x00;x00;x00;
+                                x02;x00;x00;x00; x69;x00; x47;x4e;x4f;x4c; x04;x00;x00;x00; x05;x00;x00;x00].
+Example C02_fits_nonvacuous : fits ex_empty /\ fits ex_int32.
+Proof. split; vm_compute; reflexivity. Qed.
+Example C02_model_parses_empty : result_of (unflatten_i ex_empty fixed) = Ok (Msg 7 FNil).
+Proof. vm_compute. reflexivity. Qed.
+Example C02_model_parses_int32 :
+  result_of (unflatten_i ex_int32 fixed) = Ok (Msg 7 (FCons [x69] c_B_INT32_TYPE (RInline (IFix [x05;x00;x00;x00])) FNil))
+  /\ consumed (unflatten_i ex_int32 fixed) = 30 /\ depth_reached (unflatten_i ex_int32 fixed) = 0.
+Proof. vm_compute. repeat split; reflexivity. Qed.
